@@ -13,12 +13,20 @@ CHECKS = {
          "deterministic simulation (virtual clock with per-station skew, wrap-around epoch, reference-peer histories) + lock-step reference location table"),
  "C09": ("sec", "5", "Seeded histories of add-root/add-AA/add-AT/verify-chain calls, received signed messages and issuing-API calls mixing genuine certificates with forged, re-signed, permission-escalated, wrongly-issued and expired ones, on a virtual clock crossing validity boundaries; after every operation every entry of the trust store must pass an independent chain verifier (raw ecdsa), accepted messages must lie within the ticket's permissions and validity, issued certificates within the issuer's permissions.",
          "deterministic simulation (virtual clock, seeded ECDSA entropy, byzantine certificate/message histories) + independent chain verifier as oracle"),
+ "C10": ("fac", "5", "CA and VRU services on virtual timers driven by a simulated GNSS (1-50 Hz trajectories: constant, accelerating, turning through 0/360, stop-and-go, threshold jitter, gaps, sparse fields, start/stop/restart, epochs before the 65.536 s wrap); from the BTP requests with virtual timestamps: CAM min/max gap, first-check trigger rule (reference rule engine), LF cadence, activation window, latest report, generationDeltaTime; VAM first/min/max gap and LF cadence.",
+         "deterministic simulation (virtual clock and timers, simulated GNSS report stream, timer early/late and send-error faults) + reference rule engine over the recorded message history"),
+ "C11": ("fac", "5", "The C10 runs with reports drawn over the full GNSS ranges and every optional-field subset, all station types/roles and clustering states, plus DEN requests; every payload handed to BTP is decoded with the repo's coder and compared element by element with an independent mapping oracle; generation must not raise or stall; a receiver station reconstructs the generation time.",
+         "deterministic simulation (same engine as C10, receiver station on the ether for the reconstruction clause) + independent field-mapping oracle"),
  "C12": ("ldm", "5", "Seeded operation/clock-advance histories over IF.LDM.3/IF.LDM.4 (register, add, update, delete, query, maintenance reactive/threaded/explicit) on both back-ends, stepped in lock-step with a reference map with registration gating and expiry.",
          "deterministic simulation (virtual clock incl. monotonic, parked maintenance thread, TinyDB on a scratch file) + lock-step reference store model"),
  "C13": ("ldm", "5", "The C12 histories with heterogeneous CAM/DENM/VAM stores on Dictionary and TinyDB side by side; every request (8 operators, and/or, all type selections, order tuples) is compared with a brute-force predicate over the reference map and between back-ends. The filter space is sampled.",
          "deterministic simulation (two real back-ends in lock-step) + brute-force reference predicate and differential comparison"),
  "C14": ("ldm", "5", "Seeded interleavings of subscribe/unsubscribe, register/deregister, add and virtual clock advance with several consumers; reactive, periodic (parked thread) and explicit attendance; every callback invocation is compared with a reference subscription model (matching objects, order, multiplicity, interval at 1 s resolution, silence after unsubscribe/deregistration, result codes).",
          "deterministic simulation (virtual clock, parked periodic service thread) + reference subscription model"),
+ "C17": ("fac-den", "5", "DEN requests (emergency vehicle / collision risk) with intervals 100..10000 ms, durations 0..60 s, event positions on both hemispheres, overlapping events; repetition threads run as parked real threads on virtual sleep; count, cadence, GBC circle at the event position, stable and unique action ids, non-decreasing reference times, and presence in the receiver's LDM are judged.",
+         "deterministic simulation (parked repetition threads on a virtual clock, 2-station ether, clock jumps and send errors) + history oracle"),
+ "C18": ("fac-cluster", "5", "Single-manager event/clock histories over the clustering alphabet and 2-3 station closed loops through the real VAM coder, BTP/GN and ether; after every event the public API is compared with the invariants of the statement (leader/passive consistency, suppression only while passive/idle, recovery after leader loss or break-up, notification durations, join completion).",
+         "deterministic simulation (virtual time_fn, seeded cluster-id PRNG, multi-station closed loop) + invariant oracle over the public API; no exhaustive depth-bounded exploration"),
  "C19": ("dcc", "5", "Seeded timed histories (CBR samples, packet offers, delta updates on a virtual clock) drive the real DccReactive/DccAdaptive/GateKeeper step by step against an independent reference of TS 102 687 Annex A, clause 5.4 and equations B.1/B.2.",
          "deterministic simulation (virtual clock, seeded channel-load and packet-arrival processes) + lock-step reference model"),
  "C20": ("net", "5", "Originated frames of every transport type with boundary-biased requested lifetimes / hop limits are judged on the wire (LT value <= request, largest representable, non-zero from 50 ms, RHL/MHL rules); injected packets with all 256 LT codes and RHL > MHL are judged at the receiver (remaining lifetime, decode, discard). The requested-lifetime space is sampled with measured reach, not exhaustively swept.",
@@ -34,6 +42,9 @@ man = {
            "source_commits": [], "add_only": True},
  "engines": [
   {"name": "net", "path": "fsim/netsim.py", "serves_properties": ["C01", "C02", "C06", "C07", "C08", "C20"], "kind_free_text": "discrete-event virtual-time kernel + simulated ether with several real GN/BTP stacks"},
+  {"name": "fac", "path": "fsim/facsim.py", "serves_properties": ["C10", "C11"], "kind_free_text": "real CA/VRU/DEN services with real coders on virtual timers, simulated GNSS; recording BTP stub or real 2-station GN/BTP stack"},
+  {"name": "fac-den", "path": "fsim/densim.py", "serves_properties": ["C17"], "kind_free_text": "real DEN service + EVA application + LDM on NetSim stations; repetition threads parked on virtual sleep"},
+  {"name": "fac-cluster", "path": "fsim/clustersim.py", "serves_properties": ["C18"], "kind_free_text": "real VBSClusteringManager (single) and VAM transmission/reception managements in a multi-station closed loop"},
   {"name": "sec", "path": "fsim/secsim.py", "serves_properties": ["C09"], "kind_free_text": "real CertificateLibrary/VerifyService/SignService on a virtual clock with seeded ECDSA (fsim/seccrypto.py: deterministic PKI factory, forgery toolkit, independent verifier)"},
   {"name": "ldm", "path": "fsim/ldmsim.py", "serves_properties": ["C12", "C13", "C14"], "kind_free_text": "real LDM (factory, IF.LDM.3/4, service and maintenance variants, both back-ends) on a virtual clock with reference store/filter/subscription models"},
   {"name": "dcc", "path": "fsim/props/c19.py", "serves_properties": ["C19"], "kind_free_text": "virtual-clock driver for DCC entities with an independent reference (fsim/refdcc.py)"},
